@@ -407,6 +407,20 @@ def special_items():
     yield Item(["TryFrom"], "#[try_from(repr)]\npub enum @N@ {}", ("special", "empty-enum", "none", "plain", "try_from"))
     yield Item(["TryFrom"], "#[try_from(repr)]\n#[repr(u8)]\npub enum @N@<T> { A(T), B { x: T } }", ("special", "no-fieldless-variant", "T", "plain", "try_from"))
     yield Item(["Display", "Debug"], "pub enum @N@<const N: usize = 3> {}", ("special", "empty-enum", "constN=default", "plain", "-"))
+    # variants / fields named like the associated items the expansions mention (`Self::Output`, `Self::Error`,
+    # `Self::Err`, `Self::Target`, `Self::Item`, `Self::IntoIter`) or like prelude items (`Ok`, `Err`, `Some`, `None`)
+    assoc = "Output(i32), Error(i32), Err(i32), Target(i32), Item(i32), IntoIter(i32), Ok(i32), Some(i32), None(i32), Result(i32), Option(i32)"
+    distinct = "Output(i8), Error(i16), Err(i32), Target(i64), Item(u8), IntoIter(u16), Ok(u32), Some(u64), None(i128), Result(u128), Option(isize)"
+    for ds in (["Add", "Sub", "BitAnd", "BitOr", "BitXor"], ["Not", "Neg"], ["From", "TryInto", "IsVariant", "Unwrap", "TryUnwrap"], ["Display", "Debug", "Error"]):
+        body = distinct if "From" in ds else assoc.replace("(i32)", " { x: i32 }") if "Error" in ds else assoc
+        yield Item(ds, "pub enum @N@ { %s }" % body, ("special", "assoc-named-variants", "none", "plain", "+".join(ds)[:20]))
+    yield Item(["Mul", "Div", "Rem", "Shl", "Shr"], "#[mul(forward)]\n#[div(forward)]\n#[rem(forward)]\n#[shl(forward)]\n#[shr(forward)]\npub enum @N@ { Output(i32), Error(i32), Unit }",
+               ("special", "assoc-named-variants", "none", "plain", "mul-forward"))
+    yield Item(["FromStr", "Display", "IsVariant"], "pub enum @N@ { Output, Error, Err, Target, Item, Ok, Some, None, Result, Option, Self_ }", ("special", "assoc-named-unit-variants", "none", "plain", "-"))
+    yield Item(["TryFrom"], "#[try_from(repr)]\n#[repr(u8)]\npub enum @N@ { Output, Error, Err, Ok, Some, None, Result }", ("special", "assoc-named-unit-variants", "none", "plain", "try_from"))
+    yield Item(["Deref", "DerefMut", "AsRef", "AsMut", "Index", "IndexMut", "IntoIterator"],
+               "pub struct @N@ { #[deref] #[deref_mut] #[as_ref] #[as_mut] #[index] #[index_mut] #[into_iterator(owned, ref, ref_mut)] Target: ::std::vec::Vec<u8>, Output: u8, Item: u8, IntoIter: u8 }",
+               ("special", "assoc-named-fields", "none", "plain", "-"))
     # ?Sized parameters
     yield Item(["Display", "Debug"], "pub struct @N@<T: ?::core::marker::Sized>(T);", ("special", "unsized-tail", "T:?Sized", "plain", "-"))
     yield Item(["Debug"], "pub struct @N@<T: ?::core::marker::Sized> { a: u8, b: T }", ("special", "unsized-tail", "T:?Sized", "plain", "-"))
